@@ -102,6 +102,9 @@ type File struct {
 	// GoogleOnly: uses proto3 optional fields, which gogo/protobuf 1.3.2's generator does not support
 	// (it renders them as oneofs), so there are no gogo base types to attach fast-marshal code to
 	GoogleOnly bool
+	// ParamV1: extra plug-in parameters for the gogo (apiversion=v1) variants, e.g. specialname=Size,
+	// which the documentation prescribes for fields that gogo renames
+	ParamV1 string
 }
 
 func (f *File) ProtoPath() string    { return f.Base + "/" + f.Base + ".proto" }
@@ -434,4 +437,57 @@ func (f *File) SchemaTerm() string {
 		parts = append(parts, fmt.Sprintf("%d=%s:%s", i, syn, strings.Join(fs, ";")))
 	}
 	return strings.Join(parts, "|")
+}
+
+// ---------------------------------------------------------------------------------------------
+// additional schemas for the generator check (C16) only: naming and import edge cases
+
+// Extra returns schemas that exercise output naming, imports and name collisions.
+func Extra() []*File {
+	var out []*File
+	// per-message file names are built from the lower-cased SHORT name: these collide
+	out = append(out, &File{Base: "xcollide", Messages: []*Message{
+		{Name: "Item", Fields: []Field{{Name: "a", Num: 1, Kind: KInt32, Card: Implicit}}},
+		{Name: "ITEM", Fields: []Field{{Name: "b", Num: 1, Kind: KInt32, Card: Implicit}}},
+	}})
+	out = append(out, &File{Base: "xnestedcollide", Messages: []*Message{
+		{Name: "A", Fields: []Field{{Name: "x", Num: 1, Kind: KMessage, Card: Implicit, Msg: "A.Inner"}},
+			Nested: []*Message{{Name: "Inner", Fields: []Field{{Name: "a", Num: 1, Kind: KInt32, Card: Implicit}}}}},
+		{Name: "B", Fields: []Field{{Name: "x", Num: 1, Kind: KMessage, Card: Implicit, Msg: "B.Inner"}},
+			Nested: []*Message{{Name: "Inner", Fields: []Field{{Name: "b", Num: 1, Kind: KString, Card: Implicit}}}}},
+	}})
+	// a file that declares no message at all
+	out = append(out, &File{Base: "xenumonly", Enum: true})
+	// a field whose Go name is the name of a generated method
+	out = append(out, &File{Base: "xsizefield", ParamV1: "specialname=Size", Messages: []*Message{
+		{Name: "Sized", Fields: []Field{{Name: "size", Num: 1, Kind: KInt32, Card: Implicit}, {Name: "name", Num: 2, Kind: KString, Card: Implicit}}},
+	}})
+	// deep nesting of definitions, snake and camel names, a message named like a Go keyword-ish identifier
+	out = append(out, &File{Base: "xnames", Proto2: true, Messages: []*Message{
+		{Name: "snake_case_msg", Fields: []Field{{Name: "some_field_name", Num: 1, Kind: KInt32, Card: Optional}, {Name: "URL", Num: 2, Kind: KString, Card: Optional}}},
+		{Name: "Type", Fields: []Field{{Name: "type", Num: 1, Kind: KString, Card: Required}, {Name: "func", Num: 2, Kind: KBool, Card: Optional}}},
+		{Name: "L1", Fields: []Field{{Name: "n", Num: 1, Kind: KMessage, Card: Optional, Msg: "L1.L2.L3"}},
+			Nested: []*Message{{Name: "L2", Nested: []*Message{{Name: "L3", Fields: []Field{{Name: "v", Num: 1, Kind: KSFixed64, Card: RepPacked}}}}}}},
+	}})
+	return out
+}
+
+// Forest prints the message definition tree of the file: Name(Kid,Kid(Kid)) ...
+func (f *File) Forest() string {
+	var pr func(ms []*Message) string
+	pr = func(ms []*Message) string {
+		parts := make([]string, len(ms))
+		for i, m := range ms {
+			parts[i] = m.Name
+			if len(m.Nested) > 0 {
+				parts[i] += "(" + pr(m.Nested) + ")"
+			}
+		}
+		return strings.Join(parts, ",")
+	}
+	s := pr(f.Messages)
+	if s == "" {
+		return "-"
+	}
+	return s
 }
